@@ -52,6 +52,21 @@ def legacy_records(vc):
                 fr += blk(3, 0, b'')
                 name = ('legacy-synth v0.%d %s' % (ver, label)).encode()
                 f.write(struct.pack('<I', len(name)) + name + struct.pack('<I', len(fr)) + fr + struct.pack('<I', 0) + struct.pack('<I', 0)); n += 1
+        # frames that are NOT valid: several laps of run-length blocks through a 1 KiB window, then a match that reaches beyond the window, beyond the
+        # decoder's output ring, beyond two rings (built with the catalogue generator for an 8 KiB window, window descriptor then rewritten to 1 KiB)
+        import importlib.util
+        spec = importlib.util.spec_from_file_location('framegen', vc.VERIF + '/gen/framegen.py'); G = importlib.util.module_from_spec(spec); spec.loader.exec_module(G)
+        for k in (4, 7, 10):
+            for off in (1025, 1500, 3077, 3200, 4100, 5576, 6148, 7000, 9000):
+                if off > k * 1024:
+                    continue
+                fr = G.Frame()
+                for b in range(k):
+                    fr.rle(0x30 + b, 1024)
+                fr.compressed(bytes((0x61 + (i * 5) % 23) for i in range(24)), [(8, 16, off + 3)], lit={'type': 'raw', 'size_format': None})
+                raw = bytearray(fr.serialize(window=(4, 0), checksum=False)); raw[5] = 0
+                name = ('laps-invalid rle blocks=%d then match offset=%d declared window 1024' % (k, off)).encode()
+                f.write(struct.pack('<I', len(name)) + name + struct.pack('<I', len(raw)) + bytes(raw) + struct.pack('<I', 0) + struct.pack('<I', 0)); n += 1
     return out if n else None
 
 
